@@ -26,3 +26,13 @@ PROP = dict(
             dict(kind="tlc", name="fine", module="Transmission", cfg={"quick": None, "thorough": "MC_Transmission_fine.cfg"}, workers=8),
             dict(kind="tlc", name="loose", module="Transmission", cfg={"quick": None, "thorough": "MC_Transmission_loose.cfg"}, workers=8)],
 )
+
+import os, sys  # noqa: E402
+sys.path.insert(0, os.path.dirname(os.path.dirname(os.path.abspath(__file__))))
+import extstages  # noqa: E402
+# coverage extension CX4 (lib/ext/CX4.py, spec/TraceTransmission.tla, hooks transmit/verif_on.go): trace validation of the real DirectTransmission at
+# the grain of its critical sections - real concurrent executions (producers, stale dispatcher on a fake clock, scripted Honeycomb, Stop) logged at
+# the linearization points and validated by TLC line by line against the fine-grained functions of Transmission.tla, every invariant of the fine
+# model evaluated after every logged step, under the race detector. Deciding stages: what they check is C26's statement at a finer grain.
+PROP["stages"] += extstages.pick("CX4", ["b2"])
+PROP["stages"] += extstages.pick("CX4", ["b3s2", "b1", "split"], tiers=("thorough",))
